@@ -11,9 +11,45 @@ META = {
 
 
 def run(ctx):
-    return mworld.run_family(
+    mworld.run_family(
         ctx, "C18", scenarios=[1, 2, 3, 8], impls=['basicmutable', 'overlay-basic', 'overlay-mutable', 'overlay-empty'],
         sections=['roundtrip'],
         select=lambda e: e['ev']['op'] == 'roundtrip',
+        end_walks=((500, 7, 'roundtrip'), (8000, 10, 'roundtrip')),
         meta_rule='every RoundTrip transition executed via its shortest prefix on 4 world constructions + random walks',
-        assumptions=[])
+        assumptions=[], finish=False)
+    return value_kinds(ctx)
+
+
+def value_kinds(ctx):
+    """ChangeFile.tla: every (kind, shape) of tag value under every key class, and collections over every sequence of
+    key kinds, through the real export/import; the imported world must hold the same values with the same kinds."""
+    from vlib import canon
+    binary = ctx.go_build("vh-world")
+    run = ctx.tlc("ChangeFile", "ChangeFile.cfg", workers=2)
+    ctx.tlc("ChangeFile", "ChangeFileQuoted.cfg", workers=2)
+    exported = run.lines.get("CASE", [])
+    if len(exported) < 100:
+        raise Exception("ChangeFile exported too few cases")
+    cases = []
+    for impl in ("overlay-basic", "basicmutable"):
+        for c in exported:
+            k = dict(c)
+            k.update({"id": len(cases), "impl": impl})
+            cases.append(k)
+    ctx.sample({"impl": cases[0]["impl"], "case": {x: cases[0][x] for x in cases[0] if x not in ("id",)}})
+    vs = ctx.run_cases(binary, "yamlrt", cases, timeout_ms=30000, name="yamlrt")
+    for v in vs:
+        ctx.evaluations += 1
+        c = cases[v["id"]]
+        ctx.distinct_cases.add(canon(["yaml", c["impl"], c.get("keyclass"), c.get("value"), c.get("keys")]))
+        if not v.get("ok"):
+            ctx.fail(v.get("key") or "yaml:unknown", "%s: %s" % (c["impl"], v.get("msg", "")), {"case": c, "verdict": v})
+    ctx.traces_validated += len(cases)
+    ctx.extra_cov["value_kind_cases"] = len(cases)
+    return ctx.finish(
+        "model_checking",
+        rule="every RoundTrip transition of MutableWorld scenarios 1, 2, 3, 8 via its shortest prefix on 4 world constructions + "
+             "random histories closed by a round trip; plus every ChangeFile.tla case (15 value kinds/shapes x 3 key classes, "
+             "259 collection key sequences) x 2 world kinds; the imported world is compared with the edited one",
+        assumptions=["comparison is imported world vs edited world (real vs real); `all` modulo points without searchable tags"])
